@@ -11,6 +11,7 @@ package alias
 import (
 	"encoding/hex"
 	"fmt"
+	"io"
 	"runtime"
 
 	structform "github.com/elastic/go-structform"
@@ -33,12 +34,13 @@ type Scenario struct {
 	BufSize  int      `json:"bufsize,omitempty"`
 	GCAt     [][]int  `json:"gc_at_events,omitempty"`
 	KeyCache int      `json:"key_cache,omitempty"`
+	Methods  []string `json:"methods_on_one_parser,omitempty"` // entry "mixed"
 	Value    string   `json:"go_value,omitempty"`
 }
 
 type Engine struct{}
 
-var entries = []string{"write", "write", "parse", "parsestring", "reader", "decoder-reader", "decoder-bytes"}
+var entries = []string{"write", "write", "parse", "parsestring", "reader", "decoder-reader", "decoder-bytes", "mixed", "mixed"}
 
 func scribble(b []byte) {
 	for i := range b {
@@ -127,13 +129,23 @@ func unfoldAlias(c *simkit.Choices, x *simkit.Ctx) *simkit.Violation {
 		}
 		sc.GCAt = append(sc.GCAt, gcAt)
 	}
+	if sc.Entry == "mixed" {
+		// ONE parser instance used through different methods, document by document
+		ms := []string{"write", "parse", "parsestring"}
+		if f == model.UBJSON {
+			ms = append(ms, "parsereader")
+		}
+		for range docs {
+			sc.Methods = append(sc.Methods, ms[c.N(len(ms))])
+		}
+	}
 	sc.BufSize = []int{1, 2, 3, 7, 16, 64, 4096}[c.N(7)]
 	for i, n := 0, 1+c.N(3); i < n; i++ {
 		sc.Reads = append(sc.Reads, 1+c.N(12))
 	}
 	simkit.SetCurrent(sc)
 	st.Eval(1)
-	st.Distinct(simkit.NewDigest().Str(string(f) + te.Name + sc.Entry).Str(fmt.Sprint(sc.Docs, sc.Cuts, sc.GCAt, sc.Reads)).Int(sc.BufSize).Int(sc.KeyCache).Sum())
+	st.Distinct(simkit.NewDigest().Str(string(f) + te.Name + sc.Entry).Str(fmt.Sprint(sc.Docs, sc.Cuts, sc.GCAt, sc.Reads, sc.Methods)).Int(sc.BufSize).Int(sc.KeyCache).Sum())
 
 	// benign reference: fresh instances, immutable input, whole buffer, no GC
 	var ref []interface{}
@@ -197,7 +209,7 @@ func unfoldAlias(c *simkit.Choices, x *simkit.Ctx) *simkit.Violation {
 			stream = append(stream, d...)
 		}
 		switch sc.Entry {
-		case "write":
+		case "write", "mixed":
 			parser = cd.NewParser(tap)
 		case "decoder-reader":
 			dec = cd.NewDecoder(&simkit.Reader{Data: simkit.Exact(stream), Sizes: sc.Reads, Clock: &x.Clock}, sc.BufSize, tap)
@@ -230,6 +242,28 @@ func unfoldAlias(c *simkit.Choices, x *simkit.Ctx) *simkit.Violation {
 				buf := simkit.Exact(d)
 				_, runErr = cd.ParseReader(&simkit.Reader{Data: buf, Sizes: sc.Reads, Clock: &x.Clock}, tap)
 				scribble(buf)
+			case "mixed":
+				type methods interface {
+					Parse([]byte) error
+					ParseString(string) error
+				}
+				pm := parser.(methods)
+				switch sc.Methods[i] {
+				case "write":
+					_, runErr = simkit.Feed(parser, d, sc.Cuts[i], true, &x.Clock)
+				case "parse":
+					buf := simkit.Exact(d)
+					runErr = pm.Parse(buf)
+					scribble(buf)
+				case "parsestring":
+					runErr = pm.ParseString(string(d))
+				default:
+					buf := simkit.Exact(d)
+					_, runErr = parser.(interface {
+						ParseReader(io.Reader) (int64, error)
+					}).ParseReader(&simkit.Reader{Data: buf, Sizes: sc.Reads, Clock: &x.Clock})
+					scribble(buf)
+				}
 			case "decoder-reader":
 				runErr = dec.Next()
 			case "decoder-bytes":
